@@ -21,7 +21,6 @@ ASSUMPTIONS = ['hostile stimuli never use the probe stream ids (a peer that canc
 DECIDING_REQUIRED = ('parser_inputs', 'hostile_stimuli_sent', 'probes_answered', 'failing_entry_points_exercised',
                      'adapter_cases')
 BUDGET_S = {'quick': 100, 'thorough': 1800}
-CASE_WALL_LIMIT = {'quick': 60, 'thorough': 200}
 
 PROBE_STREAM = {'s': 201, 'c': 202}
 PROBE_IDS = {'s': (203, 205, 207), 'c': (204, 206, 208)}
